@@ -19,14 +19,14 @@ open Mpir.Printf
       digits = |z| in base 16 / 8 when exactly that basefield bit is set, else base 10 (more than one bit = decimal),
                upper case on a hex stream with `uppercase`;
       padding = width − length fill characters, after the digits under `left`, between prefix and digits under `internal`
-               (each alone in adjustfield), before the sign otherwise;
-    cut at the first NUL character (`cstr`: gmp_allocated_string takes strlen of the formatted text, so a NUL fill
-    character truncates the output — the only way a NUL can get there).  A stream that is not good() receives nothing
-    (`OStream.write`). -/
+               (each alone in adjustfield), before the sign otherwise.
+    Every byte of it is written, also NUL fill characters (since /repo 2def0d3; before, gmp_allocated_string took strlen
+    of the formatted text, a NUL fill character truncated the output and the buffer was freed with the wrong size).
+    A stream that is not good() receives nothing (`OStream.write`). -/
 theorem insertZ_layout (o : OStream) (z : Int) :
-    insertZ o z = ({ o with width := 0 } : OStream).write (cstr (fieldLayout o.fmt o.width o.fill
+    insertZ o z = ({ o with width := 0 } : OStream).write (fieldLayout o.fmt o.width o.fill
         (signStr o.fmt (decide (z < 0))) (prefixStr o.fmt (decide (z = 0)))
-        (natDigits o.fmt.outBase o.fmt.outUpper z.natAbs))) :=
+        (natDigits o.fmt.outBase o.fmt.outUpper z.natAbs)) :=
   insertZ_eq o z
 
 -- non-vacuity: internal adjustment with showbase, negative number, '*' fill; octal zero; two basefield bits = decimal
@@ -35,7 +35,7 @@ example : (insertZ { fmt := { dec := false, hex := true, showbase := true, inter
     (insertZ { fmt := { dec := true, hex := true, showbase := true, uppercase := true } } 255).out = "255".toList ∧
     (insertZ { fmt := { dec := false, hex := true, showbase := true, uppercase := true } } 255).out = "0XFF".toList := by
   decide +kernel
--- a NUL fill character is written like any other (before /repo 2def0d3 the text was cut at the first NUL and freed with the wrong size)
+-- a NUL fill character is written like any other (it used to truncate the output: nothing at all under right adjustment)
 example : (insertZ { width := 5, fill := '\x00' } 7).out = ['\x00', '\x00', '\x00', '\x00', '7'] ∧
     (insertZ { width := 5, fill := '\x00', fmt := { left := true } } 7).out = ['7', '\x00', '\x00', '\x00', '\x00'] := by
   decide +kernel
@@ -44,10 +44,10 @@ example : (insertZ { width := 5, fill := '\x00' } 7).out = ['\x00', '\x00', '\x0
     digits being followed, unless the denominator is 1, by "/" and the denominator with a base prefix of its own;
     the padding counts the whole text and `internal` padding goes after the numerator's prefix. -/
 theorem insertQ_layout (o : OStream) (n d : Int) (hd : 0 < d) :
-    insertQ o n d = ({ o with width := 0 } : OStream).write (cstr (fieldLayout o.fmt o.width o.fill
+    insertQ o n d = ({ o with width := 0 } : OStream).write (fieldLayout o.fmt o.width o.fill
         (signStr o.fmt (decide (n < 0))) (prefixStr o.fmt (decide (n = 0)))
         (natDigits o.fmt.outBase o.fmt.outUpper n.natAbs ++
-          (if d = 1 then [] else '/' :: (prefixStr o.fmt false ++ natDigits o.fmt.outBase o.fmt.outUpper d.natAbs))))) :=
+          (if d = 1 then [] else '/' :: (prefixStr o.fmt false ++ natDigits o.fmt.outBase o.fmt.outUpper d.natAbs)))) :=
   insertQ_eq o n d hd
 
 example : (insertQ { fmt := { dec := false, hex := true, showbase := true, internal := true }, width := 14, fill := '_' } (-255) 16).out = "-0x____ff/0x10".toList ∧
@@ -201,10 +201,10 @@ open List
     stores y = z, consumes the whole text and leaves the stream good(), EXCEPT for a hex output stream with showbase:
     a hex input stream does not accept the "0x" it writes (it reads 0 and stops at the x; see the example after
     `extractZ_spec`), unlike `std::num_get`.  (Octal with showbase is fine: the leading 0 is an octal digit.)
-    FULL STATEMENT (the part not proved): the same conclusion when `fi` has no single basefield bit (auto-detection),
-    under the condition `fo.outBase = 10 ∨ fo.showbase` — decimal text needs no prefix, hex/octal text is only
-    recognised with the prefix showbase writes; and the mpq analogue (numerator and denominator each, denominator > 0).
-    Both are exercised by the correspondence run only (each direction separately, on the same texts). -/
+    FULL STATEMENT: the same conclusion when `fi` has no single basefield bit (auto-detection), under the condition
+    `fo.outBase = 10 ∨ fo.showbase` — decimal text needs no prefix, hex/octal text is only recognised with the prefix
+    showbase writes; and the mpq analogue (numerator and denominator each, denominator > 0).  Both are now proved:
+    `roundtripZ` and `roundtripQ` in Props/C20_io2.lean (condition `ReadsBack fo fi`); this theorem is the fixed-base half. -/
 theorem roundtripZ_partial (fo fi : Fmt) (z w : Int) (hw : w ≤ 0) (fill : Char) (hfi : fi.base? = some fo.outBase)
     (hx : ¬ (fo.showbase = true ∧ fo.hexOnly = true)) :
     extractZ (mkG (insertZ { fmt := fo, width := w, fill := fill } z).out [] fi) =
@@ -259,7 +259,7 @@ theorem roundtripZ_partial (fo fi : Fmt) (z w : Int) (hw : w ≤ 0) (fill : Char
       unfold fieldLayout
       simp only [hpad, replicate_zero, append_nil, nil_append]
       split_ifs <;> simp
-    rw [hl, cstr_id _ hge]
+    rw [hl]
     simp [OStream.write, OStream.good]
   rw [htext, extractZ_spec]
   -- no white space in front
